@@ -11,7 +11,7 @@ RULE = ("import graphs as real files in a scratch directory: every graph over 3 
         "after its imports. Oracle (graph predicate, computed in Python): if a cycle is reachable from the root the run ends "
         "with an error and prints nothing at all; otherwise it ends normally and the output is the depth-first expansion in "
         "source order. Also compared with the Lean model. Non-trivial: the graph has a diamond, a repeated import or a cycle.")
-ASSUMPTIONS = ["module paths are clean relative paths; the harness uses an absolute root directory"]
+ASSUMPTIONS = ["module paths are relative paths, clean or spelled with `./`, `/./`, `//` (no `..`); the harness uses an absolute root directory"]
 default_compare = lambda m, i: C.compare_run(m, i)
 PATHS = ["main.pakhi", "b.pakhi", "sub/c.pakhi", "sub/deep/d.pakhi", "e.pakhi", "sub/f.pakhi", "g.pakhi", "sub/deep/h.pakhi", "i.pakhi", "sub/j.pakhi"]
 
@@ -40,14 +40,26 @@ def expand(adj, u, budget):
     return s + f"f{u}-শেষ\n"
 
 
-def graph_case(name, n, edges, descending, root_ph="@ROOT@", extra=None):
+def spell(path, k):
+    """the k-th spelling of a clean relative module path: as written, `./` in front, `/./` or `//` inside"""
+    if k == 1:
+        return "./" + path
+    if k == 2:
+        return path.replace("/", "/./", 1) if "/" in path else "././" + path
+    if k == 3:
+        return path.replace("/", "//", 1) if "/" in path else ".//" + path
+    return path
+
+
+def graph_case(name, n, edges, descending, root_ph="@ROOT@", extra=None, spelling=None):
     adj = {u: sorted([v for (a, v) in edges if a == u], reverse=descending) for u in range(n)}
     lines = ["RESET"]
     srcs = {}
     for u in range(n):
         body = f'দেখাও "f{u}-শুরু";\n'
         for k, v in enumerate(adj[u]):
-            body += f'মডিউল ম{G.bn_digits(str(k))} = "{PATHS[v]}";\n'
+            pth = PATHS[v] if spelling is None else spell(PATHS[v], spelling(u, v))
+            body += f'মডিউল ম{G.bn_digits(str(k))} = "{pth}";\n'
         body += f'দেখাও "f{u}-শেষ";\n'
         srcs[u] = body
         if u > 0:
@@ -109,6 +121,12 @@ def cases(rng, tier, stats):
         edges = [e for k, e in enumerate(e3) if mask >> k & 1]
         for desc in (False, True):
             out.append(graph_case("graphs-3-exhaustive", 3, edges, desc)); n += 1
+    # the same 512 graphs with the import paths written in other spellings (`./x`, `a/./x`, `a//x`): the file a path
+    # text denotes decides, cycles through differently spelled edges are cycles
+    for mask in range(1 << 9):
+        edges = [e for k, e in enumerate(e3) if mask >> k & 1]
+        for variant in ((0, 1) if tier == "thorough" else (mask & 1,)):
+            out.append(graph_case("graphs-3-spelled", 3, edges, bool(variant), spelling=lambda u, v, m=mask, w=variant: (u * 3 + v + m + w) % 4)); n += 1
     e4 = [(a, b) for a in range(4) for b in range(4)]
     if tier == "thorough":
         masks = range(1 << 16)
